@@ -370,7 +370,7 @@ func (cx *Ctx) checkRecordedAfterDecode(r *Report, key string, step *Step, decTy
 				after = true
 			}
 			if st, isSt := in.(*ssa.Store); isSt && after {
-				if fa, isFA := st.Addr.(*ssa.FieldAddr); isFA && fieldOwner(fa.X.Type()) == owner && fieldVar(fa.X.Type(), fa.Field).Name() == field {
+				if fa, isFA := st.Addr.(*ssa.FieldAddr); isFA && fieldOwner(fa.X.Type()) == owner && fname(fieldVar(fa.X.Type(), fa.Field)) == field {
 					stored = true
 				}
 			}
